@@ -210,6 +210,17 @@ func (in *c03Instance) evaluate(res coopResult) error {
 	got := in.observed()
 	want := cachedSequentialOutcomes(in.p)
 	if !want[got] {
+		// an implementation whose sequential behaviour is not a function of the
+		// call sequence alone (object pools, map iteration order) has several
+		// sequential outcomes per ordering: sample the reference a few more times
+		// before calling the concurrent outcome impossible
+		for i := 0; i < 4 && !want[got]; i++ {
+			for k := range sequentialOutcomes(in.p) {
+				want[k] = true
+			}
+		}
+	}
+	if !want[got] {
 		alts := make([]string, 0, len(want))
 		for k := range want {
 			alts = append(alts, k)
